@@ -4,7 +4,11 @@
 P="$1"; ID="$2"; TIER="${3:-quick}"
 cd /verif
 git -C /repo apply "$P" || { echo "patch does not apply"; exit 2; }
+cp evidence/$ID.json /tmp/evidence-$ID.bak 2>/dev/null
 ./check "$ID" "$TIER"; RC=$?
 git -C /repo apply -R "$P" || echo "WARNING: could not revert $P"
+cp /tmp/evidence-$ID.bak evidence/$ID.json 2>/dev/null   # evidence/ must only ever hold clean-tree runs
+# bring the generated Lean files back to the clean tree's state
+./harness/target/debug/rs2lean /repo lean/SafeNet/Gen >/dev/null 2>&1
 echo "try_seed: check exit $RC"
 exit $RC
